@@ -192,7 +192,7 @@ func TestC12_Rapid(t *testing.T) {
 			rt.Fatalf("C12 violated for %+v", c)
 		}
 	})
-	if thorough() {
+	if thorough() && !captureMode {
 		var missing []string
 		for o := 0; o <= optAll; o++ {
 			if rec.LabelCount(fmt.Sprintf("opts:%d", o)) == 0 {
